@@ -180,9 +180,9 @@ impl StorageEngine {
 //@@|     decreases ___end - ___n,
 //@@   at "let n = std::cmp::min(count as usize, members.len());"
 //@@|     let ghost all = members@;
-//@@   at "result.truncate(n);"
+//@@   at "result.truncate("
 //@@|     let ghost shuffled = result@;
-//@@   after "result.truncate(n);"
+//@@   after "result.truncate("
 //@@|     proof {
 //@@|         assert forall|i: int, j: int| 0 <= i < j < result@.len() implies result@[i] != result@[j] by { assert(shuffled[i] != shuffled[j]); }
 //@@|         assert forall|j: int| 0 <= j < result@.len() implies all.to_set().contains(#[trigger] result@[j]) by { assert(shuffled[j] == result@[j]); assert(shuffled.to_set().contains(shuffled[j])); }
